@@ -180,18 +180,41 @@ theorem applySchemaDefs_dirs_pass {st : LState} {l : List SchemaDef} {r r' : Roo
     · rename_i hne
       exact absurd h (hne _ _)
 
+theorem applySchemaDefs_dirs_eq {st : LState} {l : List SchemaDef} {r r' : Roots} {acc acc' : List Directive}
+    (h : applySchemaDefs st l r acc = .ok r' acc') : acc' = acc ++ l.flatMap (·.dirs) := by
+  induction l generalizing r acc with
+  | nil => simp [applySchemaDefs] at h; rw [← h.2]; simp
+  | cons sdef rest ih =>
+    simp only [applySchemaDefs] at h
+    split at h
+    · rename_i r2 acc2 h2
+      have := ih h
+      unfold applySchemaDef at h2
+      split at h2
+      · cases h2
+      · split at h2
+        · cases h2
+        · cases h2
+        · simp only [RootsResult.ok.injEq] at h2
+          rw [this, ← h2.2]
+          simp
+    · rename_i hne
+      exact absurd h (hne _ _)
+
 /-- `load_ok_inv` and `loaded_facts` for the same state -/
 theorem loaded_run {sd : SchemaDoc} {s : Schema} (h : load sd = .ok s) :
     ∃ st r1 d1, Facts sd s st r1 d1 ∧ validateTypeDefinitions st = .pass ∧ validateDirectiveDefinitions st = .pass ∧
-      validateDirectives st d1 locSchema none = .pass := by
+      validateDirectives st d1 locSchema none = .pass ∧ d1 = (sd.schema ++ sd.schemaExt).flatMap (·.dirs) := by
   obtain ⟨st, r0, d0, r1, d1, hb, _, h0, h1, ht, hd, hs⟩ := load_ok_inv h
   obtain ⟨hti, hdi, hrel⟩ := buildState_inv hb
   have hr0 := applySchemaDefs_ok hti (r := noRoots) (acc := [])
     ⟨by simp [noRoots], by simp [noRoots], by simp [noRoots]⟩ (by simp [SchemaDirsOK]) h0
   have hr1 := applySchemaDefs_ok hti hr0.1 hr0.2 h1
   have hnil : validateDirectives st [] locSchema none = .pass := rfl
+  have hd1 : d1 = (sd.schema ++ sd.schemaExt).flatMap (·.dirs) := by
+    rw [applySchemaDefs_dirs_eq h1, applySchemaDefs_dirs_eq h0]; simp
   refine ⟨st, r1, d1, ⟨hs, hb, hti, hdi, hrel, ?_, ?_, ?_, hr1.2⟩, ht, hd,
-    applySchemaDefs_dirs_pass h1 (applySchemaDefs_dirs_pass h0 hnil)⟩
+    applySchemaDefs_dirs_pass h1 (applySchemaDefs_dirs_pass h0 hnil), hd1⟩
   · intro p hp
     exact validateTypeDefinitions_pass ht p.1 p.2 (lookup_of_mem_nodup hti.1 hp)
   · intro p hp
